@@ -59,7 +59,7 @@ def surrogate(fvals, lps, w):
     return (r.reshape(-1, *([1] * (fvals.dim() - 1))) * fvals).sum(0) / r.sum()
 
 
-def run_case(tid, sampler, nsamples, nburn, placement, seed, tuple_out=False):
+def run_case(tid, sampler, nsamples, nburn, placement, seed, tuple_out=False, bck=False):
     g = torch.Generator().manual_seed(seed)
     a = (torch.randn(2, generator=g, dtype=DT) * 0.5).requires_grad_()
     b = (torch.randn(2, generator=g, dtype=DT) * 0.3).requires_grad_()
@@ -113,10 +113,14 @@ def run_case(tid, sampler, nsamples, nburn, placement, seed, tuple_out=False):
         opts.update(nburnout=nburn, step_size=0.7)
     else:
         opts.update(method="_dummy1d", lb=-4.0, ub=4.0)
+    if bck:
+        # backward options naming OTHER sampler settings: they configure the backward pass only - the forward chain is the one
+        # the forward options ask for, and the backward pass re-uses the forward samples
+        opts["bck_options"] = {"nsamples": nsamples + 2, "nburnout": nburn + 1, "step_size": 0.1, "lb": -1.0, "ub": 1.0}
     x0 = torch.zeros(1, dtype=DT)
     torch.manual_seed(seed)
     cfg = {"sampler": sampler if sampler != "_dummy1d" else "dummy1d", "nsamples": nsamples, "nburn": nburn, "placement": placement,
-           "seed": seed, "tuple": tuple_out}
+           "seed": seed, "tuple": tuple_out, "bck_options_given": bool(bck)}
     ev = []
     verd = []
     exc = None
@@ -223,6 +227,17 @@ def run_case(tid, sampler, nsamples, nburn, placement, seed, tuple_out=False):
     return {"tid": tid, "cfg": cfg, "ev": ev}
 
 
+def safe_case(tid, sampler, nsamples, nburn, placement, seed, **kw):
+    """the verdict computation assumes the observed call sequence has the protocol's structure (e.g. as many integrand calls as
+    samples); if it does not even have that, the run is reported as a trace whose return event fails (never a harness crash)"""
+    try:
+        return run_case(tid, sampler, nsamples, nburn, placement, seed, **kw)
+    except Exception as e:
+        cfg = {"sampler": sampler if sampler != "_dummy1d" else "dummy1d", "nsamples": nsamples, "nburn": nburn, "placement": placement, "seed": seed,
+               "tuple": bool(kw.get("tuple_out")), "bck_options_given": bool(kw.get("bck")), "observation_error": "%s: %s" % (type(e).__name__, str(e)[:160])}
+        return {"tid": tid, "cfg": cfg, "ev": [{"a": "ret", "verdicts": [["observed_calls_have_the_protocol_structure", False]]}]}
+
+
 def extra_numeric(ctx):
     """constant integrand, linearity, mh statistics at 6 sigma"""
     n = 0
@@ -305,9 +320,13 @@ def run(ctx):
             for placement in ("explicit", "object"):
                 for tup in ((False, True) if (ns, nb) in ((3, 2), (4, 0)) else (False,)):
                     tid += 1
-                    tr = run_case(tid, sampler, ns, nb, placement, ctx.seed + tid, tuple_out=tup)
+                    tr = safe_case(tid, sampler, ns, nb, placement, ctx.seed + tid, tuple_out=tup)
                     traces.append(tr)
                     ctx.case(key=(sampler, ns, nb, placement, tup))
+                if placement == "explicit" and (ns, nb) in ((3, 2), (4, 0), (2, 1), (1, 0)):
+                    tid += 1
+                    traces.append(safe_case(tid, sampler, ns, nb, placement, ctx.seed + tid, bck=True))
+                    ctx.case(key=(sampler, ns, nb, placement, "bck_options"))
     rej = ctx.validate_traces("Trace_McChain.tla", "Trace_McChain.cfg", traces, shards=12)
 
     def m_verdict(t):
